@@ -96,7 +96,13 @@ def finish(ctx, explanation, level='other'):
         print('%s: %s%s' % (key, msg, (' at ' + d['where']) if d.get('where') else ''))
         print('VIOLATION property=%s replay=%s' % (ctx.pid, rp))
     for b in ctx.broken:
+        # a rule whose subject can no longer be located / bounded is an alarm with a named construct, not a silent pass: it is
+        # reported through the same interface line as a violation, with its own replay record
+        n += 1
+        rp = os.path.join(EVDIR, 'replay', '%s-%d.json' % (ctx.pid, n))
+        json.dump({'property': ctx.pid, 'key': 'BROKEN-PRECONDITION', 'message': str(b), 'detail': {}}, open(rp, 'w'), indent=1, default=str)
         print('BROKEN-PRECONDITION property=%s %s' % (ctx.pid, b))
+        print('VIOLATION property=%s replay=%s' % (ctx.pid, rp))
     ev = {
         'property_id': ctx.pid,
         'tier': ctx.tier,
